@@ -195,6 +195,40 @@ def compare_streams(req_file, impl_file, model_file, soft_ulps=0, float_fields=N
             else: res['hard_more'] = res.get('hard_more', 0) + 1
     return res
 
+def bits_to_float(u):
+    import struct
+    return struct.unpack('<d', struct.pack('<Q', u & 0xFFFFFFFFFFFFFFFF))[0]
+
+def compare_segments(req_file, impl_file, model_file, soft_ulps=0, float_fields=None, maxreport=5, rel_tol=1e-13):
+    """line-by-line comparison for responses made of ' | '-separated segments.  Every token must be equal, except bare-digit
+       tokens (IEEE bit patterns) inside a segment that starts with 'rows=': those are the entries of a matrix produced by an Eigen
+       matrix-matrix product (summation order differs from the model's), compared under |a-b| <= rel_tol * depth * max|entry of the segment|."""
+    res = {'total': 0, 'equal': 0, 'soft': 0, 'hard': [], 'badop': 0}
+    with open(req_file) as fr, open(impl_file) as fi, open(model_file) as fm:
+        for n, (rq, a, b) in enumerate(zip(fr, fi, fm)):
+            res['total'] += 1
+            a = a.rstrip('\n'); b = b.rstrip('\n')
+            if a == b: res['equal'] += 1; continue
+            if b == 'bad-op': res['badop'] += 1
+            sa = a.split(' | '); sb = b.split(' | '); ok = len(sa) == len(sb)
+            if ok:
+                for x, y in zip(sa, sb):
+                    if x == y: continue
+                    tx = x.split(); ty = y.split()
+                    if not (tx and tx[0].startswith('rows=') and len(tx) == len(ty)): ok = False; break
+                    vals = [bits_to_float(int(t)) for t in tx if t.isdigit()]
+                    scale = max([abs(v) for v in vals if v == v] + [0.0])
+                    for p, q in zip(tx, ty):
+                        if p == q: continue
+                        if not (p.isdigit() and q.isdigit()): ok = False; break
+                        fp, fq = bits_to_float(int(p)), bits_to_float(int(q))
+                        if not (abs(fp - fq) <= rel_tol * 64 * scale): ok = False; break
+                    if not ok: break
+            if ok: res['soft'] += 1
+            elif len(res['hard']) < maxreport: res['hard'].append((n + 1, rq.rstrip('\n')[:2000], a[:2000], b[:2000]))
+            else: res['hard_more'] = res.get('hard_more', 0) + 1
+    return res
+
 # ---------------------------------------------------------------- verdict + evidence
 class Run:
     def __init__(self, prop, tier, seed):
@@ -310,7 +344,7 @@ def load_oracle(path):
     return out
 
 def standard_corr(run, harness, corr_name, soft_ulps=0, float_fields=None, sanitize=True, extra_flags=None,
-                  harness_args=None, timeout=3000, search_on_broken=True, opt=None, tier=None, driver=None):
+                  harness_args=None, timeout=3000, search_on_broken=True, opt=None, tier=None, driver=None, compare=None):
     """steps 4+5: build harness from /repo, run real code, run the Lean driver on the same requests, compare, load oracle failures"""
     tier = tier or run.tier
     driver = driver or run.prop
@@ -340,7 +374,7 @@ def standard_corr(run, harness, corr_name, soft_ulps=0, float_fields=None, sanit
         rcd, err = run_driver(req, model, driver)
         if rcd != 0: run.oblige(f'corr:{corr_name}', False, 'driver crashed: ' + err)
         else:
-            cmp = compare_streams(req, impl, model, soft_ulps, float_fields)
+            cmp = (compare or compare_streams)(req, impl, model, soft_ulps, float_fields)
             ok = not cmp['hard']
             det = ''
             if not ok:
